@@ -39,6 +39,44 @@ std::string rstr(Rng& r)
   return s;
 }
 
+// hostile values: bytes the backend hex-escapes (control bytes incl. the single bytes of the library's internal value
+// separator "\x01\x02\x03", DEL, bytes >= 0x80), quotes and backslashes. Never a raw newline (one line per statement is
+// only promised without one). With a small probability the value contains the complete three-byte separator: that is
+// the recorded finding class "value-contains-reserved-separator".
+bool g_sep_in_value = false;
+std::string hstr(Rng& r)
+{
+  static std::string const parts[] = {"\x01", "\x02", "\x03", "\x01\x02", "\x02\x03", "\x03\x02\x01", "\x7f", "\x80", "\xc3\xa9", "\xff", "\"", "\\", "\t", "\x1b[0m",
+                                      "8=FIX.4.2", "9=12", "35=0", "a", "Z", "0", " ", "=", "{", "}", "{}", "%d"};
+  size_t n = r.below(9);
+  std::string s;
+  for (size_t i = 0; i < n; ++i) s += parts[r.below(sizeof parts / sizeof parts[0])];
+  std::string const sep{"\x01\x02\x03"};
+  for (size_t pos; (pos = s.find(sep)) != std::string::npos;) s.erase(pos + 1, 1); // no accidental full separator
+  if (r.chance(1, 48))
+  {
+    s.insert(r.below(s.size() + 1), sep);
+    g_sep_in_value = true;
+  }
+  return s;
+}
+// reference for the configured (default) sanitisation: every byte outside ' '..'~' and '\n' becomes \xHH (upper case)
+std::string san_ref(std::string const& in)
+{
+  std::string out;
+  for (char c : in)
+  {
+    if ((c >= ' ' && c <= '~') || c == '\n') out += c;
+    else
+    {
+      char b[8];
+      snprintf(b, sizeof b, "\\x%02X", static_cast<unsigned>(static_cast<unsigned char>(c)));
+      out += b;
+    }
+  }
+  return out;
+}
+
 struct Tmpl
 {
   char const* fmt;                 // the template as written in the source
@@ -62,10 +100,10 @@ std::string fmt_one(char const* spec, T const& v)
                        [](Rng& r, std::string& text, std::vector<std::string>& vals)                                     \
                        {                                                                                                 \
                          GEN;                                                                                            \
-                         text = fmtquill::format(fmtquill::runtime(POS), __VA_ARGS__);                                   \
+                         text = san_ref(fmtquill::format(fmtquill::runtime(POS), __VA_ARGS__));                          \
                          char const* const specs[] = SPECS_ARRAY SPECS;                                                  \
                          size_t k = 0;                                                                                   \
-                         auto each = [&](auto const& v) { vals.push_back(fmt_one(specs[k++], v)); };                     \
+                         auto each = [&](auto const& v) { vals.push_back(san_ref(fmt_one(specs[k++], v))); };            \
                          apply_each(each, __VA_ARGS__);                                                                  \
                          LOG_INFO(g_lg, FMT, __VA_ARGS__);                                                               \
                        }})
@@ -84,6 +122,8 @@ void build()
 #define U uint64_t u = r.next()
 #define S2 std::string s2 = rstr(r)
 #define I2 int j = static_cast<int>(r.below(1000))
+#define HS std::string s = hstr(r)
+#define HS2 std::string s2 = hstr(r)
   NT("plain {x}", "plain {}", false, ("x"), (""), I, i);
   NT("{a} and {b}", "{} and {}", false, ("a", "b"), ("", ""), I; S, i, s);
   NT("{x:>8}|{y:<6}|{z:^10}", "{:>8}|{:<6}|{:^10}", false, ("x", "y", "z"), (":>8", ":<6", ":^10"), I; S; D, i, s, d);
@@ -116,6 +156,11 @@ void build()
   NT("same text different template A {a}", "same text different template A {}", false, ("a"), (""), I, i);
   NT("same text different template A {b}", "same text different template A {}", false, ("b"), (""), I, i);
   NT("{a:>4}|{a2:>4}", "{:>4}|{:>4}", false, ("a", "a2"), (":>4", ":>4"), I2, j, j);
+  // values that the backend has to hex-escape, next to values with specs
+  NT("sent {fix} with seq {seq:04d}", "sent {} with seq {:04d}", false, ("fix", "seq"), ("", ":04d"), HS; I2, s, j);
+  NT("{k1}|{k2}|{k3}", "{}|{}|{}", false, ("k1", "k2", "k3"), ("", "", ""), HS; HS2; I, s, s2, i);
+  NT("{n:>6} {raw:>12} {tail}", "{:>6} {:>12} {}", false, ("n", "raw", "tail"), (":>6", ":>12", ""), I2; HS; HS2, j, s, s2);
+  NT("{first_raw}{second_raw}", "{}{}", false, ("first_raw", "second_raw"), ("", ""), HS; HS2, s, s2);
   // LOGJ_ forms: the macro generates the template "<text> {var1}, {var2}, ..." from the variable names
   g_cat.push_back(Tmpl{"request done {count}, {user}", "request done {}, {}", {"count", "user"}, {"", ""}, false,
                        [](Rng& r, std::string& text, std::vector<std::string>& vals)
@@ -152,6 +197,8 @@ void build()
 #undef U
 #undef S2
 #undef I2
+#undef HS
+#undef HS2
 }
 
 // LOGJ_ forms: the template is generated by the macro from the variable names
@@ -197,6 +244,7 @@ int main(int argc, char** argv)
       std::string text;
       std::vector<std::string> vals;
       recorder().clear();
+      g_sep_in_value = false;
       t.log(r, text, vals);
       g_manual->poll();
       ++g_statements;
@@ -222,14 +270,18 @@ int main(int argc, char** argv)
       }
       if (!key.empty())
       {
-        wit.boolean("placeholder_followed_by_escaped_brace", t.defect_class);
-        violation("C19", t.defect_class ? key + ":placeholder-followed-by-escaped-brace" : key, wit);
-        if (!t.defect_class) g_failed = true;
+        wit.boolean("placeholder_followed_by_escaped_brace", t.defect_class).boolean("value_contains_reserved_separator", g_sep_in_value);
+        violation("C19", t.defect_class ? key + ":placeholder-followed-by-escaped-brace" : g_sep_in_value ? key + ":value-contains-reserved-separator" : key, wit);
+        if (!t.defect_class && !g_sep_in_value) g_failed = true;
       }
+      bool needs_escaping = false;
+      for (auto const& v : vals) if (v.find_first_of("\"\\") != std::string::npos) needs_escaping = true;
+      if (needs_escaping) g_stats.add("statements_with_values_that_need_json_escaping");
+      if (g_sep_in_value) g_stats.add("statements_with_reserved_separator_in_a_value");
       // sidecar for the JSON judgement (done by the driver with Python's json module)
       std::string tmpl = t.fmt;
       for (auto& c : tmpl) if (c == '\n') c = ' ';
-      std::string line = "{\"message\":" + json_str(tmpl) + ",\"defect_class\":" + (t.defect_class ? "true" : "false") + ",\"pairs\":[";
+      std::string line = "{\"message\":" + json_str(tmpl) + ",\"defect_class\":" + (t.defect_class ? "true" : "false") + ",\"needs_escaping\":" + (needs_escaping ? "true" : "false") + ",\"pairs\":[";
       for (size_t k = 0; k < t.names.size(); ++k) line += std::string{k ? "," : ""} + "[" + json_str(t.names[k]) + "," + json_str(k < vals.size() ? vals[k] : "") + "]";
       line += "]}";
       g_expect << line << "\n";
